@@ -330,6 +330,17 @@ func (e *canidExec) Do(line string) string {
 		msg := acmelib.NewMessage("m", acmelib.MessageID(m), 8)
 		msg.SetPriority(acmelib.MessagePriority(p))
 		staticFirst := (static+p)%2 == 0
+		// a message without a static CAN-ID may have HAD one: it was given its own number as static
+		// CAN-ID and lost it again through UpdateID with the same number ("drop the static CAN-ID,
+		// keep the number") — before it is attached, or after (see below)
+		hadStatic := st == 0 && (p+n)%3 == 0
+		if hadStatic && m%2 == 0 {
+			if msg.SetStaticCANID(acmelib.CANID(m)) == nil {
+				if err := msg.UpdateID(acmelib.MessageID(m)); err != nil {
+					return "err " + err.Error()
+				}
+			}
+		}
 		if st == 1 && staticFirst {
 			if err := msg.SetStaticCANID(acmelib.CANID(static)); err != nil {
 				return "err " + err.Error()
@@ -499,6 +510,14 @@ func (e *canidExec) Do(line string) string {
 		if st == 1 && !staticFirst {
 			if err := msg.SetStaticCANID(acmelib.CANID(static)); err != nil {
 				return "err " + err.Error()
+			}
+		}
+		if hadStatic && m%2 != 0 {
+			if msg.SetStaticCANID(acmelib.CANID(m)) == nil {
+				_ = msg.GetCANID()
+				if err := msg.UpdateID(acmelib.MessageID(m)); err != nil {
+					return "err " + err.Error()
+				}
 			}
 		}
 		got := uint32(msg.GetCANID())
